@@ -913,6 +913,7 @@ func (v *vdrRun) loop() {
 			v.preFinal = v.snapshot(true)
 			v.collectPreNames(v.preFinal)
 			v.valueChecks(v.preFinal)
+			v.guardChecks()
 			r.log("complete", "", string(st))
 			r.ps.VDRKill()
 			r.ps.VerifStorageBarrier()
